@@ -43,16 +43,16 @@ def HistOk (Good : Bytes → Bytes → Prop) (v : Variant) (p : Params) : St →
 theorem inv_init (gr : Nat → Option Bytes) : Inv Good v p (St.init gr) := by
   intro i f hf; simp [St.init] at hf
 
-theorem step_inv (hp : HeaderOk p) (hinj : HashInj p) (hgs : GoodSpec p Good) (v : Variant)
+theorem step_inv (hp : HeaderOk p) (hinj : HashInj p) (hgs : GoodSpec p Good) (hs : v.Sound)
     (st : St) (op : Op) (hinv : Inv Good v p st) (hok : OpOk Good v p st op) :
     Inv Good v p (step v p st op) := by
   cases op with
   | edit i g => exact hinv
   | touch i => exact hinv
-  | build i => exact build_inv hp hinj hgs v _ st i hinv
-  | forcedBuild i => exact build_inv hp hinj hgs v _ st i hinv
-  | buildDir ids => exact buildDir_inv hp hinj hgs v _ ids st hinv
-  | forcedBuildDir ids => exact buildDir_inv hp hinj hgs v _ ids st hinv
+  | build i => exact build_inv hp hinj hgs hs _ st i hinv
+  | forcedBuild i => exact build_inv hp hinj hgs hs _ st i hinv
+  | buildDir ids => exact buildDir_inv hp hinj hgs hs _ ids st hinv
+  | forcedBuildDir ids => exact buildDir_inv hp hinj hgs hs _ ids st hinv
   | deleteOut i =>
     intro j f hf
     by_cases hj : j = i
@@ -89,12 +89,12 @@ theorem step_inv (hp : HeaderOk p) (hinj : HashInj p) (hgs : GoodSpec p Good) (v
     touches, builds, forced builds, directory builds, deletions and honest hand edits, for any
     number of grammars, keep every output honest. -/
 theorem inv_preserved_by_ops (hp : HeaderOk p) (hinj : HashInj p) (hgs : GoodSpec p Good)
-    (v : Variant) (ops : List Op) (st : St) (hinv : Inv Good v p st) (hok : HistOk Good v p st ops) :
+    (hs : v.Sound) (ops : List Op) (st : St) (hinv : Inv Good v p st) (hok : HistOk Good v p st ops) :
     Inv Good v p (run v p st ops) := by
   induction ops generalizing st with
   | nil => exact hinv
   | cons op ops ih =>
-    exact ih (step v p st op) (step_inv hp hinj hgs v st op hinv hok.1) hok.2
+    exact ih (step v p st op) (step_inv hp hinj hgs hs st op hinv hok.1) hok.2
 
 /-- **A build establishes currency** (all outcomes of `process_file_into`).
     From an honest state, building grammar `i` with text `g` ends in exactly one of:
@@ -105,7 +105,7 @@ theorem inv_preserved_by_ops (hp : HeaderOk p) (hinj : HashInj p) (hgs : GoodSpe
       io error, nothing changed;
     * the grammar is not UTF-8: io error; the output of `i` is removed iff the code is
       `removeFirst`, otherwise nothing changed. -/
-theorem build_establishes_current (v : Variant) (cfg : Cfg) (st : St) (i : Nat) (g : Bytes)
+theorem build_establishes_current (hs : v.Sound) (cfg : Cfg) (st : St) (i : Nat) (g : Bytes)
     (hinv : Inv Good v p st) (hg : st.gr i = some g) :
     (build v p cfg st i = (.upToDate, st) ∧ ∃ f, st.fs (.rs i) = some f ∧ Good g f.data) ∨
     ((build v p cfg st i).1 = .built ∧ ∃ body c, (p.gen g).result = .ok body ∧
@@ -116,7 +116,7 @@ theorem build_establishes_current (v : Variant) (cfg : Cfg) (st : St) (i : Nat) 
         ∃ f, st.fs (.rs i) = some f ∧ headerUtf8 f.data = false) ∨
     ((build v p cfg st i).1 = .ioErr .grammarNotUtf8 ∧ validUtf8 g = false ∧
         (build v p cfg st i).2.fs (.rs i) = (if v.removeFirst then none else st.fs (.rs i))) := by
-  have hres := build_res v p cfg st i g hg
+  have hres := build_res hs p cfg st i g hg
   generalize build v p cfg st i = r at hres ⊢
   cases hres with
   | headerErr e _ herr =>
@@ -139,13 +139,13 @@ theorem build_establishes_current (v : Variant) (cfg : Cfg) (st : St) (i : Nat) 
     exact Or.inr (Or.inl ⟨rfl, body, c, hgen, hsome, hc⟩)
 
 /-- what a forced build of a UTF-8 text `g` leaves for grammar `i`: the canonical file, or nothing -/
-theorem forced_build_output (v : Variant) (cfg : Cfg) (st : St) (i : Nat) (g : Bytes)
+theorem forced_build_output (hs : v.Sound) (cfg : Cfg) (st : St) (i : Nat) (g : Bytes)
     (hg : st.gr i = some g) (hforce : cfg.force = true) (hu : validUtf8 g = true) :
     ((build v p cfg st i).2.fs (.rs i)).map (·.data) =
       match (p.gen g).result with
       | .ok body => some (canon p g body)
       | .error _ => none := by
-  have hres := build_res v p cfg st i g hg
+  have hres := build_res hs p cfg st i g hg
   generalize build v p cfg st i = r at hres
   cases hres with
   | headerErr e hf _ => simp [hforce] at hf
@@ -158,13 +158,13 @@ theorem forced_build_output (v : Variant) (cfg : Cfg) (st : St) (i : Nat) (g : B
     From a state in which every output is honest in the exact sense, if the grammar is UTF-8 and
     the existing output's header lines are UTF-8, the output after a non-forced build has exactly
     the bytes a forced build would write (both are absent when generation fails). -/
-theorem build_eq_forced (v : Variant) (st : St) (i : Nat) (g : Bytes)
+theorem build_eq_forced (hs : v.Sound) (st : St) (i : Nat) (g : Bytes)
     (hinv : Inv (Exact p) v p st) (hg : st.gr i = some g) (hu : validUtf8 g = true)
     (hh : ∀ f, st.fs (.rs i) = some f → headerUtf8 f.data = true) :
     ((build v p { force := false } st i).2.fs (.rs i)).map (·.data) =
       ((build v p { force := true } st i).2.fs (.rs i)).map (·.data) := by
-  rw [forced_build_output v { force := true } st i g hg rfl hu]
-  rcases build_establishes_current v { force := false } st i g hinv hg with
+  rw [forced_build_output hs { force := true } st i g hg rfl hu]
+  rcases build_establishes_current hs { force := false } st i g hinv hg with
     ⟨hr, f, hf, body, hgen, hd⟩ | ⟨_, body, c, hgen, hsome, _⟩ | ⟨e, _, hgen, hnone⟩ |
     ⟨_, _, f, hf, hbad⟩ | ⟨_, hbad, _⟩
   · rw [hr]; simp [hf, hgen, hd]
@@ -191,12 +191,12 @@ theorem untouched_when_current (hp : HeaderOk p) (v : Variant) (st : St) (i : Na
     the (UTF-8) grammar, then after a build from an honest state (forced, or non-forced with
     readable header lines) there is no output file for that grammar and the outcome is that
     error. -/
-theorem failed_build_leaves_nothing (hgs : GoodSpec p Good) (v : Variant) (cfg : Cfg) (st : St)
+theorem failed_build_leaves_nothing (hgs : GoodSpec p Good) (hs : v.Sound) (cfg : Cfg) (st : St)
     (i : Nat) (g : Bytes) (e : Nat) (hinv : Inv Good v p st) (hg : st.gr i = some g)
     (hu : validUtf8 g = true) (hgen : (p.gen g).result = .error e)
     (hh : cfg.force = true ∨ ∀ f, st.fs (.rs i) = some f → headerUtf8 f.data = true) :
     (build v p cfg st i).1 = .genErr e ∧ (build v p cfg st i).2.fs (.rs i) = none := by
-  have hres := build_res v p cfg st i g hg
+  have hres := build_res hs p cfg st i g hg
   generalize build v p cfg st i = r at hres
   cases hres with
   | headerErr e' hf herr =>
@@ -221,14 +221,14 @@ theorem failed_build_leaves_nothing (hgs : GoodSpec p Good) (v : Variant) (cfg :
   | built body c st' _ _ hgen' _ _ _ _ _ => rw [hgen] at hgen'; cases hgen'
 
 /-- a build of grammar `i` does not touch the outputs of other grammars or any grammar file -/
-theorem build_frame (v : Variant) (cfg : Cfg) (st : St) (i j : Nat) (hj : j ≠ i) :
+theorem build_frame (hs : v.Sound) (cfg : Cfg) (st : St) (i j : Nat) (hj : j ≠ i) :
     (build v p cfg st i).2.fs (.rs j) = st.fs (.rs j) ∧ (build v p cfg st i).2.gr = st.gr := by
   cases hg : st.gr i with
   | none =>
     obtain ⟨_, _, hframe, hgr⟩ := build_missing v p cfg st i hg
     exact ⟨hframe j hj, hgr⟩
   | some g =>
-    have hres := build_res v p cfg st i g hg
+    have hres := build_res hs p cfg st i g hg
     generalize build v p cfg st i = r at hres
     cases hres with
     | headerErr => exact ⟨rfl, rfl⟩
@@ -240,14 +240,14 @@ theorem build_frame (v : Variant) (cfg : Cfg) (st : St) (i j : Nat) (hj : j ≠ 
 /-- **Property over histories** (any variant, with the two UTF-8 side conditions).  Start with no
     outputs, run any history whose hand edits are honest, then build grammar `i` (non-forced): the
     output has exactly the bytes of a forced build of the current text. -/
-theorem history_then_build_eq_forced (hp : HeaderOk p) (hinj : HashInj p) (v : Variant)
+theorem history_then_build_eq_forced (hp : HeaderOk p) (hinj : HashInj p) (hs : v.Sound)
     (gr : Nat → Option Bytes) (ops : List Op) (hok : HistOk (Exact p) v p (St.init gr) ops)
     (i : Nat) (g : Bytes) (hg : (run v p (St.init gr) ops).gr i = some g) (hu : validUtf8 g = true)
     (hh : ∀ f, (run v p (St.init gr) ops).fs (.rs i) = some f → headerUtf8 f.data = true) :
     ((build v p { force := false } (run v p (St.init gr) ops) i).2.fs (.rs i)).map (·.data) =
       ((build v p { force := true } (run v p (St.init gr) ops) i).2.fs (.rs i)).map (·.data) :=
-  build_eq_forced v _ i g
-    (inv_preserved_by_ops hp hinj (exact_spec p) v ops _ (inv_init gr) hok) hg hu hh
+  build_eq_forced hs _ i g
+    (inv_preserved_by_ops hp hinj (exact_spec p) hs ops _ (inv_init gr) hok) hg hu hh
 
 /-- `process_dir`: the list of per-file outcomes is a run of successes followed by at most one
     failure (it stops at the first error); `buildDir_inv` says every output stays honest. -/
@@ -296,14 +296,14 @@ theorem honest_of_no_exact_header (he : v.exactHeader = true) (d : Bytes)
     `utf8Tolerant`, from a state in which every output is honest in the exact sense: whatever the
     grammar text (UTF-8 or not) and whatever the bytes of the existing output, the output after a
     non-forced build of an existing grammar file has exactly the bytes a forced build would leave. -/
-theorem fixed_build_eq_forced (hgu : GenUtf8 p) (hr : v.removeFirst = true)
+theorem fixed_build_eq_forced (hs : v.Sound) (hgu : GenUtf8 p) (hr : v.removeFirst = true)
     (ht : v.utf8Tolerant = true) (st : St) (i : Nat) (g : Bytes)
     (hinv : Inv (Exact p) v p st) (hg : st.gr i = some g) :
     ((build v p { force := false } st i).2.fs (.rs i)).map (·.data) =
       ((build v p { force := true } st i).2.fs (.rs i)).map (·.data) := by
   by_cases hu : validUtf8 g = true
-  · rw [forced_build_output v { force := true } st i g hg rfl hu]
-    rcases build_establishes_current v { force := false } st i g hinv hg with
+  · rw [forced_build_output hs { force := true } st i g hg rfl hu]
+    rcases build_establishes_current hs { force := false } st i g hinv hg with
       ⟨hr', f, hf, body, hgen, hd⟩ | ⟨_, body, c, hgen, hsome, _⟩ | ⟨e, _, hgen, hnone⟩ |
       ⟨_, hbad, _⟩ | ⟨_, hbad, _⟩
     · rw [hr']; simp [hf, hgen, hd]
@@ -314,7 +314,7 @@ theorem fixed_build_eq_forced (hgu : GenUtf8 p) (hr : v.removeFirst = true)
   · have hu' : validUtf8 g = false := by simpa using hu
     -- forced: the old output is removed, then loading fails
     have hforced : (build v p { force := true } st i).2.fs (.rs i) = none := by
-      have hres := build_res v p { force := true } st i g hg
+      have hres := build_res hs p { force := true } st i g hg
       generalize build v p { force := true } st i = r at hres
       cases hres with
       | headerErr e hf _ => cases hf
@@ -323,7 +323,7 @@ theorem fixed_build_eq_forced (hgu : GenUtf8 p) (hr : v.removeFirst = true)
       | genErr e st' _ hv _ _ _ _ _ => rw [hu'] at hv; cases hv
       | built body c st' _ hv _ _ _ _ _ _ => rw [hu'] at hv; cases hv
     rw [hforced]
-    rcases build_establishes_current v { force := false } st i g hinv hg with
+    rcases build_establishes_current hs { force := false } st i g hinv hg with
       ⟨_, f, hf, body, hgen, _⟩ | ⟨_, body, c, hgen, _, _⟩ | ⟨e, _, _, hnone⟩ |
       ⟨_, hbad, _⟩ | ⟨_, _, hi⟩
     · have := hgu g body hgen; rw [hu'] at this; cases this
@@ -335,10 +335,10 @@ theorem fixed_build_eq_forced (hgu : GenUtf8 p) (hr : v.removeFirst = true)
 /-- **A failed build leaves nothing, repaired code.**  With `removeFirst` and `utf8Tolerant`,
     every build of an existing grammar file (forced or not, any text, any existing output) that
     does not return `Ok` leaves no output file for that grammar. -/
-theorem fixed_failed_build_leaves_nothing (hr : v.removeFirst = true) (ht : v.utf8Tolerant = true)
+theorem fixed_failed_build_leaves_nothing (hs : v.Sound) (hr : v.removeFirst = true) (ht : v.utf8Tolerant = true)
     (cfg : Cfg) (st : St) (i : Nat) (g : Bytes) (hg : st.gr i = some g)
     (hfail : (build v p cfg st i).1.isOk = false) : (build v p cfg st i).2.fs (.rs i) = none := by
-  have hres := build_res v p cfg st i g hg
+  have hres := build_res hs p cfg st i g hg
   generalize build v p cfg st i = r at hres hfail
   cases hres with
   | headerErr e _ herr =>
@@ -354,14 +354,14 @@ theorem fixed_failed_build_leaves_nothing (hr : v.removeFirst = true) (ht : v.ut
   | built body c st' _ _ _ _ _ _ _ _ => simp [Outcome.isOk] at hfail
 
 /-- history version for the repaired code -/
-theorem fixed_history_then_build_eq_forced (hp : HeaderOk p) (hinj : HashInj p) (hgu : GenUtf8 p)
+theorem fixed_history_then_build_eq_forced (hp : HeaderOk p) (hinj : HashInj p) (hs : v.Sound) (hgu : GenUtf8 p)
     (hr : v.removeFirst = true) (ht : v.utf8Tolerant = true)
     (gr : Nat → Option Bytes) (ops : List Op) (hok : HistOk (Exact p) v p (St.init gr) ops)
     (i : Nat) (g : Bytes) (hg : (run v p (St.init gr) ops).gr i = some g) :
     ((build v p { force := false } (run v p (St.init gr) ops) i).2.fs (.rs i)).map (·.data) =
       ((build v p { force := true } (run v p (St.init gr) ops) i).2.fs (.rs i)).map (·.data) :=
-  fixed_build_eq_forced hgu hr ht _ i g
-    (inv_preserved_by_ops hp hinj (exact_spec p) v ops _ (inv_init gr) hok) hg
+  fixed_build_eq_forced hs hgu hr ht _ i g
+    (inv_preserved_by_ops hp hinj (exact_spec p) hs ops _ (inv_init gr) hok) hg
 
 /-! ### The original code: where the property fails (each reproduced on the real code before the repair) -/
 
